@@ -748,3 +748,58 @@ def run_io(prop="C17", tier="quick"):
                      or "/scanf/" in unoverlay(f.file)]
     r["notes"].append("findings restricted to the I/O units (%d patterns) and printf/ scanf/" % len(IO_UNITS))
     return r
+
+
+def run_blockmove(prop="C04", tier="quick"):
+    """R-ALLOC.blockmove: a limb block and its recorded capacity travel together.  Every function that stores the `_mp_d` of an mpz / mpq-part /
+    mpf object it received as a parameter also stores that object's `_mp_alloc` (mpz) or `_mp_prec` (mpf: the block holds prec + 1 limbs).
+    Otherwise reallocate / free are later given a size that belongs to another block (mpf_swap without the precision), or writes are
+    sized by the wrong capacity.  Local objects are exempt (read-only views such as `PTR (n) = PTR (N)`), and so is the generator state
+    kept in `_mp_seed->_mp_d`."""
+    res = dict(findings=[], stats=collections.Counter(), samples=[], notes=[])
+    ex = sa.export(sa.cfg_builtfx())
+    sa.check_errors(ex)
+    fx = collections.Counter()
+    for path, fn in ex.functions():
+        if sa.is_foreign_fixture(path, FIXTURE):
+            continue
+        stores, info = collections.defaultdict(set), {}
+        for b in fn["blocks"]:
+            for el in b["elems"]:
+                def f(n, el=el):
+                    if n.get("k") == "binop" and n["op"] == "=":
+                        l = n["l"]
+                        while isinstance(l, dict) and l.get("k") == "cast":
+                            l = l["e"]
+                        if isinstance(l, dict) and l.get("k") == "member" and l["field"] in ("_mp_d", "_mp_alloc", "_mp_prec"):
+                            bv = base_var(l)
+                            bk = key(l["base"])
+                            if bv is None or bk is None or bv.get("param") is None or "_mp_seed" in bk:
+                                return
+                            stores[bk].add(l["field"])
+                            info.setdefault((bk, l["field"]), (bv, el["line"]))
+                sa.walk(el["e"], f)
+        for bk, fl in stores.items():
+            if "_mp_d" not in fl:
+                continue
+            if path != FIXTURE:
+                res["stats"]["block_stores"] += 1
+            if not (fl & {"_mp_alloc", "_mp_prec"}):
+                bv, line = info[(bk, "_mp_d")]
+                f_ = Finding(prop, "R-ALLOC.blockmove", path, line, fn["name"], "block-without-capacity:%s" % bv["name"],
+                             "%s stores the limb pointer of its parameter object %s at line %d but never that object's _mp_alloc / _mp_prec: the "
+                             "block and the capacity recorded for it now belong to different allocations (a later free / reallocate gets the "
+                             "wrong size, writes are bounded by the wrong capacity)" % (fn["name"], bv["name"], line))
+                if path == FIXTURE:
+                    fx[fn["name"]] += 1
+                else:
+                    res["findings"].append(f_)
+    if not fx.get("fix_blockmove_bad") or fx.get("fix_blockmove_good"):
+        raise AnalysisBroken("R-ALLOC.blockmove fixtures: %r" % dict(fx))
+    if res["stats"]["block_stores"] < 10:
+        raise AnalysisBroken("R-ALLOC.blockmove: only %d limb-pointer stores on parameter objects found (floor 10)" % res["stats"]["block_stores"])
+    res["stats"] = dict(res["stats"])
+    res["obligations"] = res["stats"]["block_stores"]
+    res["notes"].append("fixtures: 1 positive fired, 1 negative silent")
+    res["exhaustive"] = True
+    return res
